@@ -2,16 +2,18 @@
   C17 — A panic in user code never leads to double drops or invalid memory.
 
   The full statement is FALSE on the current tree (recorded findings): a `Drop` panic inside
-  `World::clear` / `World::remove` (non-last row) and a `Clone` / `Drop` panic inside
-  `World::clone_from` leave columns and the shared length inconsistent, so values are dropped a
-  second time when the world is dropped.  Proved here: the mechanism of the `clear` finding on the
-  model (a concrete witness of the double drop for *every* non-empty column layout), and that the
-  length-first order is panic safe (leaks at worst).  The fault-enumeration run checks every
+  `World::remove` (non-last row) and a `Clone` / `Drop` panic inside `World::clone_from` leave
+  columns and the shared length inconsistent, so values are dropped a second time when the world
+  is dropped.  Proved here: the mechanism of the (repaired) `clear` finding on the model (a
+  concrete witness of the double drop for *every* non-empty column layout), that the length-first
+  order is panic safe (leaks at worst), and for `Entry::remove` that dropping the detached
+  component in the middle of the row move is not panic safe (witness) while dropping it last is.  The fault-enumeration run checks every
   (operation, callback, position) of the table below on the real crate; pairs the table calls safe
   must show no double drop, no allocator error, no crash.  PARTIAL: unwinding itself, `Vec`'s
   internal guards and rayon's panic propagation are modelled from their documentation.
 -/
 import BroodModel.Fault
+import BroodModel.Lemmas.Ledger
 
 namespace Brood
 
@@ -49,6 +51,48 @@ theorem C17_clear_length_first_safe (cols : List (List Val)) (j : Nat) :
     st.dropAll = [] := by
   simp [clearFaultLengthFirst, RawArch.dropAll]
 
+/-! ### `Entry::remove`: where the detached component is dropped
+
+`Entry::remove` pops the entity's row into a byte buffer (fixing the location of the row that is
+swapped into its place), pushes the row minus the detached component into the target table, and
+re-points the entity's slot.  Originally the detached component was never dropped (a leak, C04).
+Repair 885588c dropped it while the row was being pushed: a panicking `Drop` then left the world
+in the state `entryRemoveMidFault` below.  Repair 7197610 drops it last. -/
+
+/-- The state a `Drop` panic in the middle of the move leaves behind: the row has left its table
+(`takeRowAt`), nothing else has happened — in particular the entity's slot still names the old row. -/
+def entryRemoveMidFault (w : World) (id : Ident) : Out World :=
+  match w.alloc.get id with
+  | none => .ok w
+  | some loc =>
+    match w.takeRowAt loc.arch loc.row with
+    | .ok (w1, _, _) => .ok w1
+    | .ub e => .ub e
+
+/-- **Mid-move is not panic safe** (witness): the state left behind violates the invariant — a
+live identifier whose location names a row that is no longer there — so later safe calls index
+outside the live rows. -/
+example :
+    (match run (World.init 2 []) [.insert [0, 1] [⟨0, 1⟩, ⟨1, 2⟩]] with
+     | .ok w =>
+       (match entryRemoveMidFault w ⟨0, 0⟩ with
+        | .ok w1 => (invB w, invB w1, (w1.alloc.get ⟨0, 0⟩).isSome, w1.archs.map (·.ids.length))
+        | .ub _ => (false, true, false, []))
+     | .ub _ => (false, true, false, [])) = (true, false, true, [0]) := by decide
+
+/-- **Drop-last is panic safe**: when the detached component is dropped as the last step, the
+state a panicking `Drop` leaves behind is the complete result of `Entry::remove`, which satisfies
+the invariant and denotes the expected map — the world stays fully usable, nothing is dropped
+twice (the detached value was moved out of the columns before its `Drop` ran). -/
+theorem C17_entry_remove_drop_last_safe {w w' : World} {id : Ident} {c : Nat} {res : Option (List Val)}
+    (hi : Inv w) (e : w.entryRemove id c = .ok (w', res)) :
+    Inv w' ∧ w'.len = w.len ∧
+    w'.entity id = (w.entity id).map (fun vs => vs.filter (fun v => v.ty ≠ c)) ∧
+    (∀ id', id' ≠ id → w'.entity id' = w.entity id') ∧
+    (∀ x, w'.cnt x + (res.getD []).count x = w.cnt x) := by
+  obtain ⟨h1, h2, h3, _⟩ := entryRemove_entity hi e
+  exact ⟨entryRemove_inv hi e, h3, h1, h2, fun x => entryRemove_cnt x hi e⟩
+
 /-- Callbacks that only read (`PartialEq`, `Debug`, `Serialize`, a system body) are safe for
 every operation; `Clone` is safe inside `clone`. -/
 theorem C17_read_only_safe (op : String) :
@@ -61,3 +105,4 @@ end Brood
 #print axioms Brood.C17_clear_drop_panic_double_drop
 #print axioms Brood.C17_clear_length_first_safe
 #print axioms Brood.C17_read_only_safe
+#print axioms Brood.C17_entry_remove_drop_last_safe
